@@ -373,6 +373,62 @@ theorem C17_getBool_table :
     getBool "yes".toList = true ∧ getSize "100".toList = some 100 ∧ getSize "10k".toList = some 10240 ∧
     getSize "10K".toList = some 10240 ∧ getSize "3m".toList = some 3145728 ∧ getSize "12x".toList = none := by decide
 
+/-! ### sizes and booleans, for every value (the table above is a sample) -/
+
+/-- decimal value of a digit string -/
+def decValue (d : S) : Nat := d.foldl (fun n c => n * 10 + (c.toNat - '0'.toNat)) 0
+
+/-- **C17 (`get_size`, unbounded).** For every non-empty string of decimal digits `d`: `d` itself means that many bytes, `d` followed by
+    `k`/`K` means `d × 1024`, followed by `m`/`M` means `d × 1024 × 1024`, and followed by any other ASCII character that is not a
+    digit it is rejected (`none` = the ValueError).  (ASCII: Python's `lower()`, `isnumeric()` and `int()` know more characters than
+    the model - the Kelvin sign U+212A lower-cases to `k`, full-width digits are digits; such values are outside the model.) -/
+theorem C17_getSize_spec (d : S) (hne : d ≠ []) (hd : d.all Char.isDigit = true) :
+    getSize d = some (decValue d) ∧
+    (∀ c, c.toLower = 'k' → c.isDigit = false → getSize (d ++ [c]) = some (decValue d * 1024)) ∧
+    (∀ c, c.toLower = 'm' → c.isDigit = false → getSize (d ++ [c]) = some (decValue d * 1024 * 1024)) ∧
+    (∀ c, c.toNat < 128 → c.isDigit = false → c.toLower ≠ 'k' → c.toLower ≠ 'm' → getSize (d ++ [c]) = none) := by
+  have hemp : d.isEmpty = false := by cases d with | nil => exact absurd rfl hne | cons _ _ => rfl
+  have hsuf : ∀ c, (d ++ [c]).getLast? = some c ∧ (d ++ [c]).dropLast = d := fun c => by simp
+  refine ⟨?_, ?_, ?_, ?_⟩
+  · unfold getSize
+    cases hl : d.getLast? with
+    | none => exact absurd (List.getLast?_eq_none_iff.mp hl) hne
+    | some c =>
+      have hc : c.isDigit = true := by
+        have hm : c ∈ d := List.mem_of_getLast? hl
+        exact List.all_eq_true.mp hd c hm
+      simp only [hc, if_true, hemp, hd, Bool.false_or, Bool.not_true, Bool.false_eq_true, if_false]
+      rfl
+  · intro c hk hnd
+    unfold getSize
+    rw [(hsuf c).1]
+    simp only [hnd, Bool.false_eq_true, if_false, (hsuf c).2, hemp, hd, Bool.false_or, Bool.not_true, hk, if_true]
+    rfl
+  · intro c hm hnd
+    have hk : c.toLower ≠ 'k' := by rw [hm]; decide
+    unfold getSize
+    rw [(hsuf c).1]
+    simp only [hnd, Bool.false_eq_true, if_false, (hsuf c).2, hemp, hd, Bool.false_or, Bool.not_true, hk, hm, if_true]
+    rfl
+  · intro c _ hnd hk hm
+    unfold getSize
+    rw [(hsuf c).1]
+    simp only [hnd, Bool.false_eq_true, if_false, (hsuf c).2, hemp, hd, Bool.false_or, Bool.not_true, hk, hm]
+
+/-- **C17 (`get_bool`, unbounded).** A value is false exactly when it is empty or, in any capitalisation, one of `0`, `off`, `no`. -/
+theorem C17_getBool_spec (v : S) :
+    getBool v = false ↔ v = [] ∨ v.map Char.toLower = "0".toList ∨ v.map Char.toLower = "off".toList ∨ v.map Char.toLower = "no".toList := by
+  unfold getBool
+  cases v with
+  | nil => simp
+  | cons c cs =>
+    simp only [List.isEmpty_cons, Bool.not_false, Bool.true_and, Bool.not_eq_false', List.contains_cons, List.contains_nil,
+      Bool.or_false, Bool.or_eq_true, beq_iff_eq, reduceCtorEq, false_or]
+
+example : getSize "100k".toList = some (100 * 1024) := by
+  have := (C17_getSize_spec "100".toList (by decide) (by decide)).2.1 'k' (by decide) (by decide)
+  simpa [decValue] using this
+
 /-! ### the original code: one shared architecture list per line (regression witness) -/
 
 /-- explicit heap model of the aliasing in the original `update_repository`/`to_repository`: all components created
